@@ -34,7 +34,8 @@ ASSUMPTIONS = [
 PROBES = ["rejected_assignment_after_accepted_ones", "upstream_with_hyphen_rederives_revision",
           "epoch_added_to_upstream_containing_colon", "trailing_newline_string",
           "non_ascii_digit_epoch", "hyphen_without_valid_revision", "none_upstream",
-          "rejected_construct", "rollback_checked_on_other_handles", "empty_string_optional_part"]
+          "rejected_construct", "rollback_checked_on_other_handles", "empty_string_optional_part",
+          "operation_retried"]
 
 LETTERS = "abcdefghijklmnopqrstuvwxyzABCDEFGHIJKLMNOPQRSTUVWXYZ"
 DIG = "0123456789"
@@ -142,11 +143,24 @@ def generate(seed, run, tier):
     w_set = rs.choice([2, 4, 8])
     w_read = rs.choice([0, 1])
     w_copy = rs.choice([0, 1])
-    kinds = ["new"] * w_new + ["set"] * w_set + ["read"] * w_read + ["copy"] * w_copy
+    w_again = rs.choice([0, 1, 2])
+    kinds = ["new"] * w_new + ["set"] * w_set + ["read"] * w_read + ["copy"] * w_copy + \
+        ["again"] * w_again
     steps = [{"h": 0, "op": "new", "s": _gen_part(rq, "full")}]
     for _ in range(nsteps):
         k = rq.choice(kinds)
         st = {"h": rq.randrange(nh), "op": k}
+        if k == "again":
+            # the previous construction / assignment is issued once more (a retry), on the
+            # same or on another handle
+            prev = steps[-1]
+            if prev["op"] in ("new", "set"):
+                st = dict(prev)
+                if rq.random() < 0.5:
+                    st["h"] = rq.randrange(nh)
+                st["retry"] = True
+                steps.append(st)
+            continue
         if k == "new":
             st["s"] = _gen_part(rq, "full")
         elif k == "copy":
@@ -215,6 +229,8 @@ def execute(case):
     for si, st in enumerate(case["trace"]):
         k = st["h"] % nh
         op = st["op"]
+        if st.get("retry"):
+            out.probe("operation_retried")
         if op == "new" or op == "copy":
             if op == "copy":
                 src = st["from"] % nh
